@@ -15,6 +15,15 @@ CHECKS = {
             "precondition sizes <= 2**53). Not decided: file-system effects.",
             "symbolic execution of the real AST + loop invariant, VCs discharged by z3/cvc5", "3 C19"),
 }
+CHECKS["C20"] = ("proof",
+    "Round trip parse(format(n)) == n, exactness of the decimal string (both signs), exact acceptance of every string of the grammar "
+    "and rejection of every string outside the language of the real pattern are postconditions of the real functions, proved for "
+    "all |n| <= 2.1e17 and all strings (character-level encoding of the short strings: digit variables, linear arithmetic); plus "
+    "13685 run-time contract cases (bounded, not counted as proved).",
+    "Trusted: the character-level model of str.format/rstrip/ljust/int/re (pyvc.chars, pyvc.regex; the pattern is parsed from the running "
+    "re object). Accepted language read as Python reads it (Unicode \\d, optional final newline) - DESIGN F12. Value of strings with "
+    "non-ASCII digits not decided.",
+    "symbolic execution of the real AST with concrete-length symbolic strings, VCs discharged by z3/cvc5", "3 C20")
 NOT_YET = {}
 
 def main():
